@@ -4,7 +4,10 @@
 //                       the script still holds of removed ones) followed by the
 //                       raw rows of the crate tables read through the C API on
 //                       the library's own connection (no library code).
-//   v1.mktrack <var> <n>   create a minimal track with relative path "t<n>.mp3"
+//   v1.mktrack <var> <n> [hexpath]   create a minimal track with relative path "t<n>.mp3" (or the given one)
+//   v1.trackcols        raw Track (id, path, filename) rows and the file-extension MetaData rows (type 13),
+//                       read through the C API (C11: derived per-track columns), and the ids of the rows that
+//                       depend on a track (MetaData, MetaDataInteger, PerformanceData) next to the Track ids
 //   v1.save / v1.restore   snapshot / restore the whole library image
 //                          (sqlite3_serialize of the attached databases) and the
 //                          script's handle variables; used by the state-space
@@ -110,13 +113,25 @@ void deser(sqlite3* h, const char* schema, const std::vector<unsigned char>& v)
 DJV_CMD(v1_mktrack, "v1.mktrack")
 {
     dj::track_snapshot s;
-    s.relative_path = "t" + a.at(2) + ".mp3";
+    s.relative_path = a.size() > 3 ? parse_hexstr(a.at(3)) : "t" + a.at(2) + ".mp3";
     // sample count / rate present: stays clear of the absent-optional dereference in the 1.x waveform conversion
     s.sample_count = 441000;
     s.sample_rate = 44100;
     auto t = DB().create_track(s);
     put_track(a.at(1), t);
     return "id=" + std::to_string((long long)t.id());
+}
+
+DJV_CMD(v1_trackcols, "v1.trackcols")
+{
+    if (is_v2()) throw bad_command{"v1.trackcols on a 2.x library"};
+    auto* h = main_handle();
+    return "Track " + raw_query(h, "SELECT id, path, filename FROM Track WHERE path IS NOT NULL ORDER BY 1") +
+           " Ext " + raw_query(h, "SELECT id, text FROM MetaData WHERE type = 13 ORDER BY 1") +
+           // rows that depend on a track (ON DELETE CASCADE in the schema; PerformanceData lives in the other file)
+           " Dep " + raw_query(h, "SELECT id FROM MetaData UNION SELECT id FROM MetaDataInteger ORDER BY 1") +
+           " Perf " + raw_query(h, "SELECT id FROM PerformanceData ORDER BY 1") +
+           " Ids " + raw_query(h, "SELECT id FROM Track ORDER BY 1");
 }
 
 DJV_CMD(v1_save, "v1.save")
